@@ -4,7 +4,7 @@ import os, shutil, json, sys
 pid, letter, k, demo_dir, breaks, needs, det = sys.argv[1:8]
 d = "/verif/seeded/%s-%s" % (pid, letter)
 os.makedirs(d, exist_ok=True)
-src = "/tmp/seedout/%s" % pid
+src = os.environ.get("SEEDSRC", "/tmp/seedout") + "/%s" % pid
 shutil.copy("%s/patch%s.diff" % (src, k), d + "/patch.diff")
 shutil.copy("%s/demo%s_test.go" % (src, k), d + "/demo_test.go")
 if os.path.exists("%s/notes%s.md" % (src, k)):
